@@ -285,9 +285,10 @@ def bigbuf_query(propset, root, kind, L, in_object_name_len=1, timeout=3000, con
     return q
 
 
-def biglen_query(root, timeout=900, window=False):
-    return Query("biglen.%s%s" % ("obj" if root == 1 else "arr", ".window" if window else ""), "h_biglen.c",
-                 defines=dict({"ROOT": root}, **({"WINDOW": 1} if window else {})), sources=("parser",),
+def biglen_query(root, timeout=900, window=False, transcribe=False):
+    return Query("biglen.%s%s%s" % ("obj" if root == 1 else "arr", ".window" if window else "", ".transcribe" if transcribe else ""), "h_biglen.c",
+                 defines=dict({"ROOT": root}, **dict({"WINDOW": 1} if window else {}, **({"TRANSCRIBE": 1} if transcribe else {}))),
+                 sources=("parser", "writer") if transcribe else ("parser",),
                  unwindset={"_advance_parsing.0": 4, "_parse_integer.0": 9, "memcmp.0": 4}, unwind=20, checks="mem", timeout=timeout,
                  mem_gb=2, tags={"family": "H-TOKEN", "what": "one next over a symbolic token header, claimed buffer size symbolic up to 2^33: "
                                  "every 1/2/4-byte length 0..INT32_MAX, every integer width, doubles"}, group="h_biglen")
@@ -804,6 +805,8 @@ def plan_C10(tier):
                     qs.append(bigbuf_query(10, root, kind, L))
     else:
         qs += [bigbuf_query(10, 2, "S", 128), bigbuf_query(10, 1, "B", 128), bigbuf_query(10, 2, "S", 127)]
+    # any length / width: one decoded token (claimed-size buffer) re-encoded into a 9-byte writer buffer: header bytes and total size
+    qs += [biglen_query(2, transcribe=True), biglen_query(1, transcribe=True)]
     qs += shape_variant_queries(10, 1, 6 if tier == "quick" else 8, variants=("full",), scalars=("T", "S1"), witness_every=4)
     qs += shape_variant_queries(10, 2, 5 if tier == "quick" else 7, variants=("full",), scalars=("T", "S1"), witness_every=4)
     qs += shape_variant_queries(10, 2, 4 if tier == "quick" else 5, variants=("full",), scalars=("B1", "D"), witness_every=4)
@@ -1021,19 +1024,6 @@ def print_query(propset, pmode, n, D, root, tcap=40, timeout=2400, extra=None, n
                  mem_gb=2 + 0.5 * n * copies, restrict_fp=rfp,
                  tags={"n": n, "D": D, "root": "object" if root == 1 else "array", "family": "H-PRINT",
                        "capacity": "symbolic 0..%d" % tcap if pmode == 1 else tcap}, group="h_print.m%d" % pmode)
-
-
-def bigprint_query(bp, root, blen, timeout=1500):
-    """to_string (bp=1) / print (bp=2) over one BYTES value of blen bytes: the hex loops unwound completely"""
-    cb = "_binson_print_cb" if bp == 2 else "_binson_to_string_cb"
-    rfp = [("_advance_parsing.function_pointer_call.%d" % i, cb) for i in (1, 2, 3)]
-    return Query("bigprint.%s.B%d.%s" % ("to_string" if bp == 1 else "print", blen, "obj" if root == 1 else "arr"), "h_bigprint.c",
-                 defines={"BLEN": blen, "ROOT": root, "BP": bp, "FMT_TRIVIAL": 1, "NB": 8, "DEPTH": 2}, sources=("parser",), with_print=True,
-                 unwindset={"_advance_parsing.0": 8, "_parse_integer.0": 9, "memcmp.0": 4,
-                            "_binson_to_string_cb.0": blen + 2, "_binson_print_cb.0": blen + 2},
-                 unwind=20, checks="func", timeout=timeout, mem_gb=16, restrict_fp=rfp,
-                 tags={"family": "H-PRINT-BIG", "what": "one bytes value of %d bytes: hex loop unwound completely" % blen, "object_bits": 8},
-                 group="h_bigprint.%d" % bp)
 
 
 def rank_queries():
